@@ -221,20 +221,25 @@ def _big_case(args):
     from cell_type_mapper.gene_id.gene_id_mapper import GeneIdMapper
     rng = np.random.default_rng(seed)
     nr, nc = 90, 60
-    M = rng.integers(1, 300, size=(nr, nc)).astype(np.float64)
+    # small values everywhere; the one value that needs a wider integer type sits in the last row and column
+    M = rng.integers(1, 100, size=(nr, nc)).astype(np.float64)
     if enc != 'dense':
         M[rng.random((nr, nc)) < 0.5] = 0.0
-    flat_rows = {'start': range(0, 3), 'middle': range(44, 47), 'end': range(nr - 3, nr), 'none': range(0)}[where]
+    M[nr - 1, nc - 1] = 40000.0
+    # 'near': the non-integral values are within 1e-6 of an integer (17.00000005): they are not integers
+    dl = 5e-8 if where == 'near' else 0.25
+    region = 'start' if where == 'near' else where
+    flat_rows = {'start': range(0, 3), 'middle': range(44, 47), 'end': range(nr - 3, nr), 'none': range(0)}[region]
     for r in flat_rows:
         for c in range(nc):
             if M[r, c] != 0 and enc != 'csc' or enc == 'dense':
-                M[r, c] += 0.25 if (r + c) % 2 else -0.25
+                M[r, c] += dl if (r + c) % 2 or where == 'near' else -dl
     if enc == 'csc' and where != 'none':
-        cols = {'start': range(0, 3), 'middle': range(29, 32), 'end': range(nc - 3, nc)}[where]
+        cols = {'start': range(0, 3), 'middle': range(29, 32), 'end': range(nc - 3, nc)}[region]
         for c in cols:
             for r in range(nr):
                 if M[r, c] != 0:
-                    M[r, c] += 0.25
+                    M[r, c] += dl
     d = tempfile.mkdtemp(dir=wd)
     bad = []
     try:
@@ -339,7 +344,7 @@ def run(ctx):
     # matrices stored in several HDF5 chunks
     big = [(enc, where, place, chunk, wd, ctx.seed + k)
            for k, (enc, where, place, chunk) in enumerate(
-               (e, w, pl, c) for e in ('dense', 'csr', 'csc') for w in ('start', 'middle', 'end', 'none')
+               (e, w, pl, c) for e in ('dense', 'csr', 'csc') for w in ('start', 'middle', 'end', 'none', 'near')
                for pl in ('X', 'layer') for c in ((256, 1000) if not quick else (256,)))]
     with cf.ProcessPoolExecutor(max_workers=12) as ex:
         bouts = list(ex.map(_big_case, big, chunksize=2))
